@@ -7,10 +7,10 @@ N_CASES = {"quick": 120, "thorough": 4000}
 N_SEARCH = {"quick": 1, "thorough": 2}
 SHARD = 15
 HAS_MODEL_OUT = True
-RULE = ("seeded histories (2-16 steps) of Add / Del / ExecuteBatch / Backup+Restore on a real RocksDB directory: "
+RULE = ("seeded histories (2-16 steps) of Add / Del / ExecuteBatch / Backup+Restore / reopen (Close, open the same directory again) on a real RocksDB directory: "
         "small key and value alphabets (empty value, values that are prefixes of each other, values that look like the "
         "length framing, the empty key), batches with duplicate keys, deletions of what the same batch adds and of absent "
-        "values (failing batches), batches of 13-40 pairs (sort.Slice beyond insertion sort), random long keys/values; "
+        "values (failing batches), batches of 13-40 pairs (sort.Slice beyond insertion sort), random long keys/values, multi-session histories (a key written, the store closed, the key changed and emptied value by value, the store closed or backed up, the key read, deleted from and written again); "
         "after every step Find and ForEach on every key of the alphabet; "
         "non-trivial = distinct history with at least one step that changes the map or fails (counted by the hash of those steps and the maps seen before them)")
 TRUSTED_BASE = [
@@ -57,6 +57,8 @@ def _op(d, s):
         return "(ODel %s %s)" % (d.b(s.get("k")), d.b(s.get("v")))
     if op == "batch":
         return "(OBatch %s %s)" % (_pairs(d, s.get("adds")), _pairs(d, s.get("dels")))
+    if op == "reopen":
+        return "OReopen"
     return "OBackupRestore"
 
 
@@ -93,7 +95,7 @@ def nontrivial(c):
 def case_class(c):
     kinds = set(s["op"] for s in c["steps"])
     failed = any(s["op"] == "batch" and s["err"] != 0 for s in c["steps"])
-    return c.get("class", "?") + (":backup" if "backup" in kinds else "") + (":failedbatch" if failed else "")
+    return c.get("class", "?") + (":backup" if "backup" in kinds else "") + (":reopen" if "reopen" in kinds else "") + (":failedbatch" if failed else "")
 
 
 def shrink_candidates(c):
